@@ -10,6 +10,7 @@ import (
 	ipfslog "berty.tech/go-ipfs-log"
 	"berty.tech/go-ipfs-log/entry"
 	"berty.tech/go-orbit-db/iface"
+	"berty.tech/go-orbit-db/stores/basestore"
 	"berty.tech/go-orbit-db/stores/operation"
 )
 
@@ -274,6 +275,59 @@ func (c *Cluster) Up(i int) error {
 	})
 	if !lop.Done {
 		k.Failf("load/hang", "Load(-1) after restart on n%d did not return", i)
+	}
+	c.Stores[i] = st
+	return lop.Err
+}
+
+// SaveSnapshot saves a snapshot of peer i's replica (the snapshot's address goes to its cache).
+func (c *Cluster) SaveSnapshot(i int) bool {
+	st := c.Stores[i]
+	if st == nil {
+		return false
+	}
+	op := c.K.Do(i, "save-snapshot", 100, func() (interface{}, error) {
+		ctx, cancel := OpCtx(2 * time.Minute)
+		defer cancel()
+		return basestore.SaveSnapshot(ctx, st)
+	})
+	c.K.W.Stat("snapshot-saved")
+	return op.Done && op.Err == nil
+}
+
+// UpFromSnapshot restarts peer i like Up, but fills the fresh store from the saved snapshot
+// (LoadFromSnapshot) instead of the cached heads.
+func (c *Cluster) UpFromSnapshot(i int) error {
+	k := c.K
+	if c.Stores[i] != nil {
+		return nil
+	}
+	k.W.Stat("restart-from-snapshot")
+	p, err := k.StartPeer(c.Peers[i].Node, c.PeerOpts...)
+	if err != nil {
+		return err
+	}
+	c.Peers[i] = p
+	op := k.Do(i, "reopen", 400, func() (interface{}, error) {
+		ctx, cancel := OpCtx(10 * time.Minute)
+		defer cancel()
+		return p.DB.Open(ctx, c.Addr, c.createOpts(i))
+	})
+	if !op.Done {
+		k.Failf("open/hang", "reopen on n%d did not return", i)
+	}
+	if op.Err != nil {
+		return op.Err
+	}
+	st := op.Val.(iface.Store)
+	p.Stores[c.Addr] = st
+	lop := k.Do(i, "load-from-snapshot", 400, func() (interface{}, error) {
+		ctx, cancel := OpCtx(10 * time.Minute)
+		defer cancel()
+		return nil, st.LoadFromSnapshot(WithOfflineReads(ctx))
+	})
+	if !lop.Done {
+		k.Failf("load/hang", "LoadFromSnapshot after restart on n%d did not return", i)
 	}
 	c.Stores[i] = st
 	return lop.Err
